@@ -57,6 +57,9 @@ func genEngine(c *Ctx) error {
 		nHist = 600
 	}
 	walFocus, journalFocus := c.Flag("wal"), c.Flag("journal")
+	if !journalFocus && !c.Flag("drop") {
+		directedWALShrink(c)
+	}
 	for h := 0; h < nHist; h++ {
 		ps := pick(r, enginePageSizes)
 		if ps == 65536 && r.Chance(2, 3) {
@@ -209,4 +212,53 @@ func genEngine(c *Ctx) error {
 		}
 	}
 	return nil
+}
+
+// directedWALShrink: a WAL-mode database whose pages all live in the database file shrinks inside
+// its last 256-page checksum block by a transaction that rewrites only page 1 (what an
+// incremental vacuum of trailing free pages does); then more transactions at the new size, a
+// checkpoint and growth back over the cut pages.
+func directedWALShrink(c *Ctx) {
+	r := c.Rng
+	for _, ps := range []int{512, 4096} {
+		for _, cut := range []int{1, 87, 200} {
+			cs := c.Begin()
+			do := func(op string) string { c.Count("op." + strings.SplitN(op, " ", 2)[0]); return cs.Do(op) }
+			p := newPager(r, ps, do)
+			do("open primary")
+			do("createdb")
+			n := 300 + r.Intn(200)
+			all := txShape{newN: n, pages: map[int]bool{}, commit: true}
+			for pg := 1; pg <= n; pg++ {
+				all.pages[pg] = true
+			}
+			p.journalTx(all, 0, 0)
+			observe(c, cs, p, "directed wal-shrink: fill")
+			p.wal = true
+			p.journalTx(txShape{newN: n, pages: map[int]bool{1: true}, commit: true}, 0, 0)
+			observe(c, cs, p, "directed wal-shrink: to wal")
+			p.walTx(txShape{newN: n - cut, pages: map[int]bool{1: true}, commit: true}, false, false, false)
+			observe(c, cs, p, "directed wal-shrink: shrink")
+			p.walTx(txShape{newN: n - cut, pages: map[int]bool{1: true, 2: true}, commit: true}, false, false, false)
+			observe(c, cs, p, "directed wal-shrink: same size")
+			if r.Bool() {
+				p.sqliteCheckpoint(true, false)
+			} else {
+				do("ckpt")
+				p.walInit = false
+				p.walPages = map[uint32][]byte{}
+				p.walOff = 0
+			}
+			observe(c, cs, p, "directed wal-shrink: checkpoint")
+			grow := txShape{newN: n + 3, pages: map[int]bool{1: true}, commit: true}
+			for pg := n - cut + 1; pg <= n+3; pg++ {
+				grow.pages[pg] = true
+			}
+			p.walTx(grow, false, false, false)
+			observe(c, cs, p, "directed wal-shrink: grow back")
+			c.Count("directed.wal-shrink")
+			c.Nontrivial(fmt.Sprintf("directed-wal-shrink-%d-%d", ps, cut))
+			cs.End()
+		}
+	}
 }
